@@ -6,8 +6,8 @@ import (
 	"hash/fnv"
 	"io"
 	"log"
-	"os"
 	"net/http/httptest"
+	"os"
 	"sort"
 	"strings"
 	"sync"
@@ -101,19 +101,11 @@ func (w *worker) runCase(k kase) {
 	tree := treeOfRegs(k.srv.regs)
 
 	// which key segments will the closure read? — from the path as the server sees it
-	view := serverSegments(req)
+	view := serverSegments(req, k.srv.prefix)
 	var dec []string
 	if t := locate(tree, view); t != nil {
 		keys := t.keys
 		dec = k.req.decodes(keys)
-		// a resource-level action does not read the resource's own key
-		if name, ok := k.req.param("action"); ok && t.hasKey {
-			for _, a := range t.node.actions {
-				if a.name == name && !a.onEntity && keysDecode(keys[:len(keys)-1]) && !contains(dec, "action") {
-					dec = append(dec, "action")
-				}
-			}
-		}
 	} else {
 		dec = k.req.decodes(nil)
 	}
